@@ -18,15 +18,26 @@ type c04Member struct {
 }
 
 func c04Members() []c04Member {
+	// key field names: one a substring of the other (quick), plus unrelated names and the
+	// reverse order (thorough)
+	k1, k2 := "order_id", "id"
+	if nd.Thorough() {
+		switch nd.IntRange("key-field-names", 0, 2) {
+		case 1:
+			k1, k2 = "a", "b"
+		case 2:
+			k1, k2 = "id", "order_id"
+		}
+	}
 	ms := []c04Member{
-		{"!table R", []string{"a <: int [~pk]"}},
-		{"!table R", []string{"b <: int [~pk]"}},
+		{"!table R", []string{k1 + " <: int [~pk]"}},
+		{"!table R", []string{k2 + " <: int [~pk]"}},
 		{"", []string{"e:", "    do something"}},
 	}
 	if nd.Thorough() {
 		ms = append(ms,
 			c04Member{"!type T", []string{"c <: string"}},
-			c04Member{"!type T", []string{"d <: R.a?"}},
+			c04Member{"!type T", []string{"d <: R." + k1 + "?"}},
 			c04Member{"", []string{"/r:", "    GET:", "        return ok"}},
 		)
 	}
